@@ -421,7 +421,17 @@ impl Ctx {
                 coverage.insert("distinct_nontrivial_note".into(), json!("counting stopped at the memory cap: lower bound"));
             }
             coverage.insert("rule".into(), json!(self.rule.lock().unwrap().clone()));
-            coverage.insert("samples".into(), Value::Array(self.samples.lock().unwrap().clone()));
+            let mut samples = self.samples.lock().unwrap().clone();
+            if samples.is_empty() {
+                // fallback: the cases the workers handled last (their write-ahead slots) are actual cases too
+                for s in slots().iter() {
+                    let (k, d) = (s.kind.lock().unwrap().clone(), s.desc.lock().unwrap().clone());
+                    if !d.is_empty() && samples.len() < 4 {
+                        samples.push(json!({"kind": k, "case_as_marked": d.chars().take(600).collect::<String>()}));
+                    }
+                }
+            }
+            coverage.insert("samples".into(), Value::Array(samples));
             coverage.insert("exhaustive".into(), json!(self.exhaustive.load(Ordering::Relaxed) && viols.is_empty()));
             coverage.insert("classes".into(), json!(self.classes.lock().unwrap().clone()));
             coverage.insert("excluded_by_construction".into(), json!(self.excluded.load(Ordering::Relaxed)));
